@@ -12,7 +12,8 @@
 (*    val |-> class of the (whole, continuation-joined) value text of an   *)
 (*            assignment: "lit" a Python literal, "special" one of the      *)
 (*            parser's plain forms ([[REPLACEMENT]], <vector>, UUID-ish,    *)
-(*            inf/nan), "expr" an expression that is not a literal, "junk"  *)
+(*            inf/nan), "litnf" a literal but for the names inf/nan,        *)
+(*            "expr" an expression that is not a literal, "junk"            *)
 (*            not an expression at all; "none" for other lines]             *)
 (* Literal syntax inside a value (Python repr / ast.literal_eval) is not   *)
 (* modelled: the number of physical lines of a value is a free parameter   *)
@@ -87,7 +88,10 @@ Branches == {"cont", "comment", "header", "block", "reject", "eval", "assign", "
 \* Values of assignments without the eval operator go through the literal parser only: a value is taken iff
 \* it is a literal, or -- under plain "=" -- one of the parser's special forms.  Everything else is REFUSED
 \* (an exception), in safe mode and otherwise; it is never evaluated and never accepted.
-Acceptable(tok) == tok.val = "lit" \/ (tok.val = "special" /\ ~tok.pk)
+\* ("litnf": a literal but for the names inf / nan, the repr of non-finite floats: constants, nothing to run; a reader
+\* may take it -- it has to, for pretty-printed subfields holding an infinity to read back -- so it is never REQUIRED to
+\* be refused)
+Acceptable(tok) == tok.val \in {"lit", "litnf"} \/ (tok.val = "special" /\ ~tok.pk)
 \* Fallback names a parser variant that, for packed values the literal parser rejects, falls back to
 \* evaluating the text (a design the safe-mode law refutes; kept so that TLC shows the law bites).
 CONSTANT Fallback
